@@ -20,9 +20,54 @@ import (
 
 // obs is a canonical observation: status ~ reusable ~ lines.
 type obs struct {
-	Status string
-	Reuse  string
-	Lines  []string
+	Status   string
+	Reuse    string
+	Lines    []string
+	HostType string // real interpreter only: %T of interp.Panic.Value (not part of the compared string)
+}
+
+// typeTag maps the dynamic type of a panic value as the host sees it to the vocabulary of the Lean driver.
+func typeTag(goType string) string {
+	switch goType {
+	case "string", "int", "reflect.Value":
+		return goType
+	case "*errors.errorString":
+		return "error"
+	}
+	return strings.ReplaceAll(goType, " ", "_")
+}
+
+var (
+	strText = regexp.MustCompile(`^p\d+$`)
+	errText = regexp.MustCompile(`^e\d+$`)
+	intText = regexp.MustCompile(`^-?\d+$`)
+)
+
+// tagOfText: the generated programs raise strings `p<n>`, errors `e<n>` and ints only, so the text the toolchain
+// prints for the value a compiled program died with determines its type.
+func tagOfText(text string) string {
+	switch {
+	case strings.HasPrefix(text, "fault:"):
+		return "fault"
+	case strText.MatchString(text):
+		return "string"
+	case errText.MatchString(text):
+		return "error"
+	case intText.MatchString(text):
+		return "int"
+	}
+	return "string" // any other text: a string written by hand in a replay
+}
+
+// typed appends the type tag to a `panic:<text>` status (programs of the mini-language only).
+func typed(status, tag string) string {
+	if !strings.HasPrefix(status, "panic:") || status == "panic:?" {
+		return status
+	}
+	if strings.HasPrefix(status, "panic:fault:") {
+		tag = "fault" // the values of run-time faults are not the Go runtime's (F06-5): observed as kinds only
+	}
+	return status + ":" + tag
 }
 
 func (o obs) String() string { return o.Status + "~" + o.Reuse + "~" + strings.Join(o.Lines, "|") }
@@ -148,6 +193,7 @@ func runYaegiSrc(src, entryCall string, timeout time.Duration) obs {
 	default:
 		if p, ok := r.err.(interp.Panic); ok {
 			o.Status = "panic:" + canonVal(fmt.Sprint(p.Value))
+			o.HostType = fmt.Sprintf("%T", p.Value)
 			if fmt.Sprint(p.Value) == "<nil>" || p.Value == nil {
 				o.Status = "panic:?"
 			}
@@ -169,10 +215,24 @@ func runYaegiSrc(src, entryCall string, timeout time.Duration) obs {
 }
 
 func runYaegiProg(p Prog, timeout time.Duration) obs {
+	var o obs
 	if p.Style == "call" {
-		return runYaegiSrc(p.source("Main0"), "Main0()", timeout)
+		o = runYaegiSrc(p.source("Main0"), "Main0()", timeout)
+	} else {
+		o = runYaegiSrc(p.source("main"), "", timeout)
 	}
-	return runYaegiSrc(p.source("main"), "", timeout)
+	o.Status = typed(o.Status, typeTag(o.HostType))
+	if o.Status == "timeout" {
+		o.Status = "hang" // the model's word for "Eval never returns" (the mini-language has no loops of its own)
+	}
+	return o
+}
+
+// goObsTyped: the observation of a compiled program of the mini-language, with the type tag of the value it died with.
+func goObsTyped(g common.GoResult) obs {
+	o := goObs(g)
+	o.Status = typed(o.Status, tagOfText(strings.TrimPrefix(o.Status, "panic:")))
+	return o
 }
 
 // goObs canonicalises what the compiled program did.
